@@ -419,9 +419,12 @@ static void file_step(struct cmd *c)
 		if (nl_kind != '-') ms[i++] = fl_on ? (char) toupper(nl_kind) : nl_kind;
 		ms[i] = 0;
 		if (fcxx) {
+			/* re=1: the same object is opened again without close (mpt_stream_open has to close the old stream) */
 			if (cs) { delete cs; cs = 0; }
-			if (xs) delete xs;
-			xs = new XS;
+			if (!(drv_int(c, "re", 0) && xs)) {
+				if (xs) delete xs;
+				xs = new XS;
+			}
 			ok = xs->open(fpath, ms);
 		} else {
 			if (xs) { delete xs; xs = 0; }
@@ -432,7 +435,7 @@ static void file_step(struct cmd *c)
 		if (ok && s && !drv_int(c, "buf", 1)) {
 			mpt_stream_setmode(s, 0);
 		}
-		fsimple(c, ok ? "ok" : "failed", 0, 0);
+		fsimple(c, ok ? "ok" : "failed", 1, 0);
 		return;
 	}
 	if (!s) {
